@@ -31,7 +31,8 @@ def alphabet(ref, task):
                    ("op", h, "getitem", (("#slice", 0, 2, None),)), ("op", h, "contains", (0,)), ("op", h, "index", (0,)),
                    ("op", h, "index", (99,)), ("op", h, "count", (0,)), ("op", h, "eq", ([0],)), ("op", h, "ne", ([],)),
                    ("op", h, "lt", ([1],)), ("op", h, "le", ([0],)), ("op", h, "gt", ([],)), ("op", h, "ge", ([5],)),
-                   ("op", h, "lt", (("#synced", [1]),))]
+                   ("op", h, "lt", (("#synced", [1]),)), ("op", h, "ge", (("#synced", [0, [0]]),)),
+                   ("op", h, "eq", (("#synced", [0]),))]
     ev += alpha.nav_events(ref, max_depth=2, max_handles=3)
     if ref.bufferable:
         if len(ref.ctx_stack) < 2:
@@ -57,6 +58,13 @@ class Hooks:
             if now != run.scratch["snap"][i]:
                 out.append(("written", "%r changed resource %d: %r -> %r" % (ev, i, seq._short(run.scratch["snap"][i]) if isinstance(run.scratch["snap"][i], tuple) and len(run.scratch["snap"][i]) == 4 else run.scratch["snap"][i],
                                                                             seq._short(now) if isinstance(now, tuple) and len(now) == 4 else now)))
+            if i == 0:
+                # synced operands of comparisons are collections too: comparing must not write THEIR resources either
+                for j, xr in enumerate(run.world.extra_res):
+                    if xr.snapshot() != run.world.extra_snaps[j]:
+                        out.append(("operand-written", "%r changed the resource of its synced operand: %r -> %r"
+                                    % (ev, seq._short(run.world.extra_snaps[j]) if isinstance(run.world.extra_snaps[j], tuple) and len(run.world.extra_snaps[j]) == 4 else run.world.extra_snaps[j],
+                                       seq._short(xr.snapshot()) if isinstance(xr.snapshot(), tuple) and len(xr.snapshot()) == 4 else xr.snapshot())))
             if hasattr(r, "debris"):
                 # started from 'missing + debris of a crashed first save': a read may not create, complete, move or
                 # remove anything in the directory
